@@ -163,6 +163,31 @@ func childRun(base, logPath string, kill int, seed int64) {
 	note(logPath, "C")
 }
 
+// childSecondLife reopens the crashed database, performs one more acknowledged autocommit write and is killed.
+func childSecondLife(base string, seed int64, tag int) {
+	drv.InstallCounters()
+	ctx := context.Background()
+	m := drv.NewMapping(seed)
+	db, err := inline.Open(ctx, cfgOf(base))
+	if err != nil {
+		fmt.Println("E open " + err.Error())
+		return
+	}
+	if err := db.Set(ctx, m.Key("k1"), m.Content(tag)); err != nil {
+		fmt.Println("E set " + err.Error())
+		return
+	}
+	b, err := db.Get(ctx, m.Key("k1"))
+	if err != nil || !bytes.Equal(b, m.Content(tag)) {
+		fmt.Println("E readback")
+		return
+	}
+	fmt.Println("ACK")
+	os.Stdout.Sync()
+	syscall.Kill(os.Getpid(), syscall.SIGKILL)
+	select {}
+}
+
 func childRecover(base, logPath string, kill int, seed int64, ntags int) {
 	drv.InstallCounters()
 	ctx := context.Background()
@@ -516,6 +541,30 @@ func (r *runner) judge(id int, ops []wop, points string, double int) (res result
 			}
 		}
 		os.RemoveAll(ref)
+		// a second life: the recovered database takes one more acknowledged write and is killed again
+		if n%3 == int(r.seed)%3 {
+			out, killed2, err := r.spawn([]string{"-child", "second", "-base", dir, "-seed", fmt.Sprint(r.seed), "-ntags", fmt.Sprint(ntags + 1)}, nil)
+			if err == nil && killed2 && strings.Contains(string(out), "ACK") {
+				obs4, _, err4 := r.recoverOnce(dir, 0, ntags+1)
+				if err4 == nil {
+					want := map[string]int{}
+					for _, k := range keys {
+						if len(obs1.View[k]) > 0 {
+							want[k] = obs1.View[k][0]
+						}
+					}
+					want["k1"] = ntags + 1
+					if obs4.Error != "" || !explains(obs4.View, want) {
+						os.RemoveAll(dir)
+						return fail(acked, "second-life", fmt.Sprintf("after the recovery a Set of k1 was acknowledged and read back, the process was killed and the database reopened: recovered {%s} %s, expected {%s}: %s",
+							obsStr(obs4.View), obs4.Error, viewStr(want), where))
+					}
+				}
+			} else if err == nil && !killed2 {
+				os.RemoveAll(dir)
+				return fail(acked, "second-life", fmt.Sprintf("a write after the recovery failed: %s: %s", strings.TrimSpace(string(out)), where))
+			}
+		}
 		os.RemoveAll(dir)
 	}
 	return res
@@ -593,6 +642,9 @@ func main() {
 		return
 	case "recover":
 		childRecover(*base, *logp, *kill, *seed, *ntags)
+		return
+	case "second":
+		childSecondLife(*base, *seed, *ntags)
 		return
 	}
 	self, _ := os.Executable()
